@@ -45,27 +45,51 @@ theorem attempt_ok (db db' : σ) (body : List (Bool × W)) (f : Option (Nat × E
     (h : attempt step db body f = (db', none)) : exec step db body none = .ok db' := by
   unfold attempt at h
   simp only [Conn.begin] at h
-  cases hx : exec step db body f with
-  | error e => simp [hx, Conn.rollback] at h
-  | ok cur =>
-    simp [hx, Conn.commit] at h
-    subst h
-    exact exec_ok_imp_faultfree step body db f cur hx
+  split at h
+  · cases hx : exec step db body none with
+    | error e => simp [hx, Conn.rollback] at h
+    | ok cur => simp [hx, Conn.commit] at h
+  · cases hx : exec step db body f with
+    | error e => simp [hx, Conn.rollback] at h
+    | ok cur =>
+      simp [hx, Conn.commit] at h
+      subst h
+      exact exec_ok_imp_faultfree step body db f cur hx
 
-/-- a failed attempt leaves the database as it found it -/
+/-- a failed attempt leaves the database as it found it — or, when the calling task was cancelled while the COMMIT was in flight,
+with the whole body applied (the shielded commit completes) -/
 theorem attempt_err (db db' : σ) (body : List (Bool × W)) (f : Option (Nat × Err)) (e : Err)
-    (h : attempt step db body f = (db', some e)) : db' = db := by
+    (h : attempt step db body f = (db', some e)) : db' = db ∨ (e = cancelled ∧ exec step db body none = .ok db') := by
   unfold attempt at h
   simp only [Conn.begin] at h
-  cases hx : exec step db body f with
-  | error e' =>
-    simp [hx, Conn.rollback] at h
-    exact h.1.symm
-  | ok cur => simp [hx, Conn.commit] at h
+  split at h
+  · cases hx : exec step db body none with
+    | error e' =>
+      simp [hx, Conn.rollback] at h
+      exact Or.inl h.1.symm
+    | ok cur =>
+      simp [hx, Conn.commit] at h
+      exact Or.inr ⟨h.2.symm, by rw [h.1]⟩
+  · cases hx : exec step db body f with
+    | error e' =>
+      simp [hx, Conn.rollback] at h
+      exact Or.inl h.1.symm
+    | ok cur => simp [hx, Conn.commit] at h
+
+theorem retryable_ne_cancelled (e : Err) (hr : retryable e = true) : e ≠ cancelled := by
+  intro h; subst h; simp [retryable, cancelled] at hr
+
+/-- an attempt that failed with a retryable error left the database as it found it -/
+theorem attempt_err_retryable (db db' : σ) (body : List (Bool × W)) (f : Option (Nat × Err)) (e : Err)
+    (h : attempt step db body f = (db', some e)) (hr : retryable e = true) : db' = db := by
+  rcases attempt_err step db db' body f e h with h1 | ⟨h1, _⟩
+  · exact h1
+  · exact absurd h1 (retryable_ne_cancelled e hr)
 
 theorem runFrom_spec (db : σ) (body : List (Bool × W)) (scripts : List (Option (Nat × Err))) : ∀ n,
     ((runFrom step n db body scripts).error = none → exec step db body none = .ok (runFrom step n db body scripts).db) ∧
-    (∀ e, (runFrom step n db body scripts).error = some e → (runFrom step n db body scripts).db = db) := by
+    (∀ e, (runFrom step n db body scripts).error = some e → (runFrom step n db body scripts).db = db ∨
+      (e = cancelled ∧ exec step db body none = .ok (runFrom step n db body scripts).db)) := by
   induction scripts with
   | nil =>
     intro n
@@ -73,7 +97,10 @@ theorem runFrom_spec (db : σ) (body : List (Bool × W)) (scripts : List (Option
     rcases ha : attempt step db body none with ⟨db', err⟩
     cases err with
     | none => exact ⟨fun _ => attempt_ok step db db' body none ha, fun e h => by simp at h⟩
-    | some e => exact ⟨fun h => by simp at h, fun _ _ => attempt_err step db db' body none e ha⟩
+    | some e =>
+      refine ⟨fun h => by simp at h, fun e' he' => ?_⟩
+      simp at he'; subst he'
+      exact attempt_err step db db' body none e ha
   | cons f fs ih =>
     intro n
     simp only [runFrom]
@@ -81,13 +108,15 @@ theorem runFrom_spec (db : σ) (body : List (Bool × W)) (scripts : List (Option
     cases err with
     | none => exact ⟨fun _ => attempt_ok step db db' body f ha, fun e h => by simp at h⟩
     | some e =>
-      have hdb : db' = db := attempt_err step db db' body f e ha
-      subst hdb
       by_cases hr : retryable e = true
-      · simp only [hr, if_true]
+      · have hdb : db' = db := attempt_err_retryable step db db' body f e ha hr
+        subst hdb
+        simp only [hr, if_true]
         exact ih (n + 1)
       · simp only [hr]
-        exact ⟨fun h => by simp at h, fun _ _ => rfl⟩
+        refine ⟨fun h => by simp at h, fun e' he' => ?_⟩
+        simp at he'; subst he'
+        exact attempt_err step db db' body f e ha
 
 theorem attempts_runFrom_ge (db : σ) (body : List (Bool × W)) (scripts : List (Option (Nat × Err))) : ∀ n,
     n + 1 ≤ (runFrom step n db body scripts).attempts := by
